@@ -72,6 +72,17 @@ impl<D, E> Reader<D, E> {
     }
 }
 
+impl<D, E> Drop for Reader<D, E> {
+    /// Tells the writer that nobody will read the stream any more: queued chunks are released
+    /// and later flushes fail with `BrokenPipe` instead of buffering without bound.
+    fn drop(&mut self) {
+        if let Ok(mut l) = self.shared.lock() {
+            l.state = SharedState::ReaderFused;
+            l.waker = None;
+        }
+    }
+}
+
 impl<D, E> futures_core::Stream for Reader<D, E>
 where
     D: From<Vec<u8>>,
